@@ -143,7 +143,7 @@ open Ex Robust.Props.C13.Ex in
 example : joinAllowed evil chB "#c" "" = false ∧ joinAllowed bobA chB "#c" "" = false :=
   ⟨C13_address_ban_blocks_join hB hAddr evil "#c" "" (by decide +kernel),
    C13_host_ban_blocks_join hB hHost bobA "#c" "" (by decide +kernel)⟩
-/-- the ban is what keeps `evil` out (admitted before it), and it does not hit carol at 10.0.0.2 -/
+/-- the ban is what keeps `evil` out (let in before the ban), and it does not hit carol at 10.0.0.2 -/
 example : Ex.joinAllowed' = (true, true) := by decide +kernel
 
 end Robust.Props.C13Ban
